@@ -558,9 +558,12 @@ pub fn record(driver: &str, seed: u64, thorough: bool, out: &mut Out) -> Stats {
     match driver {
         "kbd" => {
             if thorough {
-                drive_kbd(&mut s, &mut rng, 900, 400)
+                drive_kbd(&mut s, &mut rng, 900, 400);
+                drive_kbd(&mut s, &mut rng, 2, 150_000)
             } else {
-                drive_kbd(&mut s, &mut rng, 120, 300)
+                drive_kbd(&mut s, &mut rng, 120, 300);
+                // one long history without a reset (more than 2^16 bytes)
+                drive_kbd(&mut s, &mut rng, 1, 30_000)
             }
         }
         "framing" => {
